@@ -28,6 +28,8 @@ var registry = map[string]propDef{
 	"C03c": {"other", props.C03ctors},
 	"C04":  {"other", props.C04},
 	"C04t": {"other", props.C04tweak},
+	"C04o": {"other", props.C01offset},
+	"C05o": {"other", props.C01offset},
 	"C05d": {"other", props.C05dispatch},
 	"C05f": {"other", props.C05forms},
 	"C05w": {"other", props.C05wiring},
@@ -71,6 +73,8 @@ var registry = map[string]propDef{
 	"C18p": {"other", props.C18pack},
 	"C07":  {"other", props.C07},
 	"C07b": {"other", props.C07bitwise},
+	"C07p": {"other", props.C07prefix},
+	"C09p": {"other", props.C07prefix},
 	"C08":  {"other", props.C08},
 	"C09":  {"other", props.C09},
 	"C09g": {"other", props.C09guards},
